@@ -193,6 +193,7 @@ func (r *logLevels) unshift(l ...any) *logLevels {
 		if logLevels(ll) == logLevels(0) {
 			continue
 		} else if logLevels(ll) == ^logLevels(0) {
+			*r = logLevels(NoLogLevels)
 			break
 		}
 
